@@ -3,7 +3,7 @@
    line break, numbers are within the parse limits, clamped values lie in
    their clamp range, ...  First for each of the six section parsers, one line
    at a time; then lifted through the framing driver to [decode_beatmap]. *)
-From RM Require Import Model.EncSpec Proofs.EncText Proofs.EncFloat Proofs.FloatCmp Proofs.NumFacts Proofs.FramingFacts.
+From RM Require Import Model.EncSpec Proofs.EncText Proofs.EncFloat Proofs.FloatCmp Proofs.NumFacts Proofs.FramingFacts Proofs.TimingPointsValues.
 From RM Require Import Gen.Generated.
 From Flocq Require Import BinarySingleNaN.
 From Coq Require Import ZifyBool.
@@ -271,7 +271,7 @@ Proof.
            end;
     cbn [fst]; unfold general_pre;
     cbn [g_audio_file g_audio_lead_in g_preview_time g_stack_leniency g_mode g_countdown g_countdown_offset
-         set_g_audio_file set_g_audio_lead_in set_g_preview_time set_g_default_sample_bank
+         g_default_sample_bank set_g_audio_file set_g_audio_lead_in set_g_preview_time set_g_default_sample_bank
          set_g_default_sample_volume set_g_stack_leniency set_g_mode set_g_letterbox_in_breaks
          set_g_special_style set_g_widescreen_storyboard set_g_epilepsy_warning
          set_g_samples_match_playback_rate set_g_countdown set_g_countdown_offset];
@@ -279,6 +279,7 @@ Proof.
   - exact (std_path_facts v Hv Hlf).
   - exact (lead_in_of_Z _ (pn_i32_ok _ _ En)).
   - exact (pn_i32_ok _ _ En).
+  - exact (sample_bank_enum _ _ En).
   - exact (pn_f32_ok _ _ En).
   - exact (game_mode_enum _ _ En).
   - exact (countdown_enum _ _ En).
@@ -692,6 +693,168 @@ Proof.
       apply distinct_names_snoc; [exact Hd|exact (set_custom_color_none _ _ _ El)].
 Qed.
 
+(* ---------- [TimingPoints]: sample banks stay enum values ---------- *)
+
+Definition opt_bank_ok (o : option SamplePoint) : bool :=
+  match o with Some p => enum4_ok (sp_bank p) | None => true end.
+Definition tps_ok (st : TPState) : bool :=
+  enum4_ok (tpg_bank (ts_general st)) && opt_bank_ok (ts_ps st) && sample_banks_ok (ts_cp st).
+
+Lemma Forallb_insert_nth {A} (P : A -> bool) x : forall n l, forallb P l = true -> P x = true ->
+  forallb P (insert_nth n x l) = true.
+Proof.
+  induction n as [|n IH]; intros l Hl Hx; [cbn; rewrite Hx, Hl; reflexivity|].
+  destruct l as [|y r]; cbn [insert_nth forallb]; [rewrite Hx; reflexivity|].
+  cbn [forallb] in Hl. apply andb_true_iff in Hl. rewrite (proj1 Hl), (IH r (proj2 Hl) Hx). reflexivity.
+Qed.
+Lemma Forallb_replace_nth {A} (P : A -> bool) x : forall n l, forallb P l = true -> P x = true ->
+  forallb P (replace_nth n x l) = true.
+Proof.
+  induction n as [|n IH]; intros [|y r] Hl Hx; cbn [replace_nth forallb] in *; try reflexivity.
+  - apply andb_true_iff in Hl. rewrite Hx, (proj2 Hl). reflexivity.
+  - apply andb_true_iff in Hl. rewrite (proj1 Hl), (IH r (proj2 Hl) Hx). reflexivity.
+Qed.
+
+Lemma put_banks l p l' : put sp_time l p = Done l' ->
+  forallb (fun q => enum4_ok (sp_bank q)) l = true -> enum4_ok (sp_bank p) = true ->
+  forallb (fun q => enum4_ok (sp_bank q)) l' = true.
+Proof.
+  unfold put. destruct (search sp_time l (sp_time p)) as [i|i].
+  - destruct (Nat.ltb i (length l)); [|discriminate]. intros [= <-] Hl Hp. apply Forallb_replace_nth; assumption.
+  - destruct (Nat.leb i (length l)); [|discriminate]. intros [= <-] Hl Hp. apply Forallb_insert_nth; assumption.
+Qed.
+
+Lemma add_sample_banks c p c' : add_sample c p = Done c' -> sample_banks_ok c = true ->
+  enum4_ok (sp_bank p) = true -> sample_banks_ok c' = true.
+Proof.
+  unfold add_sample. destruct (at_opt sp_time (cp_sample c) (sp_time p)) as [ex|w|]; cbn [obind]; try discriminate.
+  destruct (match ex with Some e => sp_redundant p e | None => false end); [intros [= <-] H _; exact H|].
+  destruct (put sp_time (cp_sample c) p) as [l|w|] eqn:E; cbn [obind]; try discriminate.
+  intros [= <-] H Hp. unfold sample_banks_ok in *. cbn [cp_sample]. exact (put_banks _ _ _ E H Hp).
+Qed.
+
+Lemma other_adds_banks :
+  (forall c p c', add_timing c p = Done c' -> cp_sample c' = cp_sample c) /\
+  (forall c p c', add_difficulty c p = Done c' -> cp_sample c' = cp_sample c) /\
+  (forall c p c', add_effect c p = Done c' -> cp_sample c' = cp_sample c).
+Proof.
+  refine (conj _ (conj _ _)); intros c p c'.
+  - unfold add_timing. destruct (put tp_time _ _); cbn [obind]; try discriminate. intros [= <-]. reflexivity.
+  - unfold add_difficulty. destruct (difficulty_point_at c (dp_time p)) as [ex|w|]; cbn [obind]; try discriminate.
+    destruct (match ex with Some e => _ | None => _ end); [intros [= <-]; reflexivity|].
+    destruct (put dp_time _ _); cbn [obind]; try discriminate. intros [= <-]. reflexivity.
+  - unfold add_effect. destruct (effect_point_at c (ep_time p)) as [ex|w|]; cbn [obind]; try discriminate.
+    destruct (match ex with Some e => _ | None => _ end); [intros [= <-]; reflexivity|].
+    destruct (put ep_time _ _); cbn [obind]; try discriminate. intros [= <-]. reflexivity.
+Qed.
+
+Lemma flush_cp_banks st c : flush_cp st = Done c -> sample_banks_ok (ts_cp st) = true ->
+  opt_bank_ok (ts_ps st) = true -> sample_banks_ok c = true.
+Proof.
+  destruct other_adds_banks as (At & Ad & Ae).
+  unfold flush_cp, add_opt. intros H Hc Hp.
+  destruct (match ts_pt st with Some p => add_timing (ts_cp st) p | None => Done (ts_cp st) end) as [c1|w|] eqn:E1;
+    cbn [obind] in H; try discriminate.
+  destruct (match ts_pd st with Some p => add_difficulty c1 p | None => Done c1 end) as [c2|w|] eqn:E2;
+    cbn [obind] in H; try discriminate.
+  destruct (match ts_pe st with Some p => add_effect c2 p | None => Done c2 end) as [c3|w|] eqn:E3;
+    cbn [obind] in H; try discriminate.
+  assert (S1 : cp_sample c1 = cp_sample (ts_cp st)).
+  { destruct (ts_pt st); [exact (At _ _ _ E1)|inversion E1; reflexivity]. }
+  assert (S2 : cp_sample c2 = cp_sample c1).
+  { destruct (ts_pd st); [exact (Ad _ _ _ E2)|inversion E2; reflexivity]. }
+  assert (S3 : cp_sample c3 = cp_sample c2).
+  { destruct (ts_pe st); [exact (Ae _ _ _ E3)|inversion E3; reflexivity]. }
+  assert (H3 : sample_banks_ok c3 = true) by (unfold sample_banks_ok in *; rewrite S3, S2, S1; exact Hc).
+  destruct (ts_ps st) as [p|]; [exact (add_sample_banks _ _ _ H H3 Hp)|inversion H; subst; exact H3].
+Qed.
+
+Lemma bank_of_int_enum n b : bank_of_int n = Some b -> enum4_ok b = true.
+Proof.
+  unfold bank_of_int. assert (G : forall l, (forall x, In x (map snd l) -> enum4_ok x = true) ->
+                                  assoc_z n l = Some b -> enum4_ok b = true).
+  { induction l as [|[a x] r IH]; cbn [assoc_z map]; [discriminate|]. intros Hall.
+    destruct (a =? n); [intros [= <-]; apply Hall; left; reflexivity|]. apply IH. intros y Hy. apply Hall. right. exact Hy. }
+  apply G. cbn. intros x Hx. repeat (destruct Hx as [<- | Hx]; [reflexivity|]). contradiction.
+Qed.
+
+Lemma parse_tp_line_bank g line r : parse_tp_line g line = Some r -> enum4_ok (tpg_bank g) = true ->
+  enum4_ok (l_bank r) = true.
+Proof.
+  unfold parse_tp_line. rewrite parse_fields_nth. unfold parse_opts. intros H Hg.
+  repeat match type of H with
+         | obnd ?x _ = Some _ => destruct x eqn:?; cbn [obnd] in H; [|discriminate H]
+         end.
+  destruct p as [kiai omit]. cbv zeta in H.
+  match type of H with (if ?b then _ else _) = _ => destruct b; [discriminate|] end.
+  inversion H; subst; clear H. cbn [l_bank].
+  assert (Hb : enum4_ok z0 = true).
+  { unfold f_bank in *. match goal with X : match ?o with Some _ => _ | None => _ end = Some z0 |- _ =>
+      destruct o as [s3|]; [|inversion X; subst; exact Hg] end.
+    match goal with X : obnd (pn_i32 s3) _ = Some z0 |- _ =>
+      destruct (pn_i32 s3) as [n|]; cbn [obnd] in X; [|discriminate]; inversion X; subst end.
+    destruct (bank_of_int n) as [b|] eqn:Eb; cbn [odflt]; [exact (bank_of_int_enum _ _ Eb)|exact Hg]. }
+  destruct (z0 =? bank_none); [reflexivity|exact Hb].
+Qed.
+
+Lemma tps_general_refresh c g : tps_ok c = true -> enum4_ok (tpg_bank g) = true ->
+  tps_ok (core_with_general c g) = true.
+Proof.
+  unfold tps_ok, core_with_general. cbn [ts_general ts_ps ts_cp]. intros H Hg.
+  apply andb_true_iff in H. destruct H as [H H3]. apply andb_true_iff in H. destruct H as [_ H2].
+  rewrite Hg, H2, H3. reflexivity.
+Qed.
+
+Lemma add_control_point_banks st time p tc st' : add_control_point st time p tc = Done st' ->
+  tps_ok st = true -> (forall q, p = PS q -> enum4_ok (sp_bank q) = true) -> tps_ok st' = true.
+Proof.
+  unfold add_control_point. intros H Hst Hp.
+  unfold tps_ok in Hst. apply andb_true_iff in Hst. destruct Hst as [Hst H3]. apply andb_true_iff in Hst. destruct Hst as [H1 H2].
+  assert (Hflush : forall st1, (if time_changed time (ts_time st) then flush_pending_points st else Done st) = Done st1 ->
+                   tps_ok st1 = true).
+  { intros st1 E. destruct (time_changed time (ts_time st)).
+    - unfold flush_pending_points in E. destruct (flush_cp st) as [c|w|] eqn:Ef; cbn [obind] in E; try discriminate.
+      inversion E; subst. unfold tps_ok. cbn [ts_general ts_ps ts_cp opt_bank_ok].
+      rewrite H1, (flush_cp_banks _ _ Ef H3 H2). reflexivity.
+    - inversion E; subst. unfold tps_ok. rewrite H1, H2, H3. reflexivity. }
+  destruct (if time_changed time (ts_time st) then flush_pending_points st else Done st) as [st1|w|] eqn:E;
+    cbn [obind] in H; try discriminate.
+  specialize (Hflush st1 eq_refl). inversion H; subst; clear H.
+  unfold tps_ok in Hflush. apply andb_true_iff in Hflush. destruct Hflush as [Hf F3].
+  apply andb_true_iff in Hf. destruct Hf as [F1 F2].
+  destruct st1 as [g t pt pd pe ps c]. cbn [ts_general ts_ps ts_cp] in *.
+  destruct tc; destruct p; cbn [push_front push_back set_time keep_first]; unfold tps_ok;
+    cbn [ts_general ts_ps ts_cp]; rewrite ?F1, ?F2, ?F3; try reflexivity.
+  - destruct ps as [q|]; cbn [keep_first opt_bank_ok] in *; [rewrite F2; reflexivity|rewrite (Hp _ eq_refl); reflexivity].
+  - cbn [opt_bank_ok]. rewrite (Hp _ eq_refl). reflexivity.
+Qed.
+
+Lemma parse_timing_points_banks st l st' r : parse_timing_points st l = Done (st', r) ->
+  tps_ok st = true -> tps_ok st' = true.
+Proof.
+  unfold parse_timing_points. destruct (parse_tp_line (ts_general st) l) as [ln|] eqn:E; [|intros [= <- <-] H; exact H].
+  intros H Hst. destruct (apply_line st ln) as [st1|w|] eqn:Ea; cbn [obind] in H; try discriminate.
+  inversion H; subst; clear H.
+  assert (Hb : enum4_ok (l_bank ln) = true).
+  { apply (parse_tp_line_bank _ _ _ E). unfold tps_ok in Hst. apply andb_prop_l in Hst. apply andb_prop_l in Hst. exact Hst. }
+  unfold apply_line in Ea.
+  assert (Hnot : forall (x : pend) q, (forall t, x <> PS t) -> x = PS q -> enum4_ok (sp_bank q) = true)
+    by (intros x q Hx Hq; exfalso; exact (Hx q Hq)).
+  destruct (if l_tc ln then add_control_point st (l_time ln) (PT (line_tp ln)) (l_tc ln) else Done st) as [s1|w|] eqn:E1;
+    cbn [obind] in Ea; try discriminate.
+  assert (I1 : tps_ok s1 = true).
+  { destruct (l_tc ln); [|inversion E1; subst; exact Hst].
+    apply (add_control_point_banks _ _ _ _ _ E1 Hst). intros q Hq. discriminate Hq. }
+  destruct (add_control_point s1 (l_time ln) (PD (line_dp ln)) (l_tc ln)) as [s2|w|] eqn:E2; cbn [obind] in Ea; try discriminate.
+  assert (I2 : tps_ok s2 = true) by (apply (add_control_point_banks _ _ _ _ _ E2 I1); intros q Hq; discriminate Hq).
+  destruct (add_control_point s2 (l_time ln) (PS (line_sp ln)) (l_tc ln)) as [s3|w|] eqn:E3; cbn [obind] in Ea; try discriminate.
+  assert (I3 : tps_ok s3 = true).
+  { apply (add_control_point_banks _ _ _ _ _ E3 I2). intros q Hq. inversion Hq; subst. exact Hb. }
+  destruct (add_control_point s3 (l_time ln) (PE _) (l_tc ln)) as [s4|w|] eqn:E4; cbn [obind] in Ea; try discriminate.
+  assert (I4 : tps_ok s4 = true) by (apply (add_control_point_banks _ _ _ _ _ E4 I3); intros q Hq; discriminate Hq).
+  inversion Ea; subst. destruct s4. exact I4.
+Qed.
+
 (* ================================================================== *)
 (* lifting to the whole decoder                                        *)
 (* ================================================================== *)
@@ -701,7 +864,7 @@ Definition no_lf_line (l : str) : Prop := memb ch_lf l = false.
 Definition bmd_pre (b : BMD) : bool :=
   i32_ok (bmd_version b) && general_pre (tpd_general (hod_tp (bmd_ho b))) && editor_ok (bmd_editor b) &&
   metadata_ok (bmd_metadata b) && difficulty_ok (hod_difficulty (bmd_ho b)) &&
-  events_pre (hod_events (bmd_ho b)) && colors_ok (bmd_colors b).
+  events_pre (hod_events (bmd_ho b)) && colors_ok (bmd_colors b) && tps_ok (tpd_core (hod_tp (bmd_ho b))).
 
 Definition bmd_inv (os : outcome BMD) : Prop :=
   match os with Done b => bmd_pre b = true | _ => True end.
@@ -709,67 +872,66 @@ Definition bmd_inv (os : outcome BMD) : Prop :=
 Lemma defaults_pre v : i32_ok v = true -> bmd_pre (bmd_create v) = true.
 Proof. intros H. unfold bmd_pre, bmd_create. cbn [bmd_version]. rewrite H. vm_compute. reflexivity. Qed.
 
+Lemma general_pre_bank g : general_pre g = true -> enum4_ok (g_default_sample_bank g) = true.
+Proof. unfold general_pre. apply andb_prop_r. Qed.
+
 Lemma bm_step sec os l : no_lf_line l -> bmd_inv os -> bmd_inv (fst (parser_of bm_parsers sec os l)).
 Proof.
   intros Hl Hos. destruct os as [b|w|]; [|destruct sec; exact I|destruct sec; exact I].
-  cbn [bmd_inv] in Hos. unfold bmd_pre in Hos. split_ands Hos.
+  cbn [bmd_inv] in Hos. unfold bmd_pre in Hos.
+  apply andb_true_iff in Hos. destruct Hos as [Hos Qt]. apply andb_true_iff in Hos. destruct Hos as [Hos Qc].
+  apply andb_true_iff in Hos. destruct Hos as [Hos Qe]. apply andb_true_iff in Hos. destruct Hos as [Hos Qd].
+  apply andb_true_iff in Hos. destruct Hos as [Hos Qm]. apply andb_true_iff in Hos. destruct Hos as [Hos Qed'].
+  apply andb_true_iff in Hos. destruct Hos as [Qv Qg].
   destruct b as [ver ed md co ho]. destruct ho as [tp df ev core]. destruct tp as [gen tcore].
-  cbn [bmd_version bmd_editor bmd_metadata bmd_colors bmd_ho hod_tp hod_difficulty hod_events tpd_general] in *.
+  cbn [bmd_version bmd_editor bmd_metadata bmd_colors bmd_ho hod_tp hod_difficulty hod_events tpd_general tpd_core] in *.
+  assert (Fin : forall ver' ed' md' co' gen' tcore' df' ev' core',
+            i32_ok ver' = true -> general_pre gen' = true -> editor_ok ed' = true -> metadata_ok md' = true ->
+            difficulty_ok df' = true -> events_pre ev' = true -> colors_ok co' = true -> tps_ok tcore' = true ->
+            bmd_pre (mkBMD ver' ed' md' co' (mkHOD (mkTPD gen' tcore') df' ev' core')) = true).
+  { intros. unfold bmd_pre.
+    cbn [bmd_version bmd_editor bmd_metadata bmd_colors bmd_ho hod_tp hod_difficulty hod_events tpd_general tpd_core].
+    solve_ands. }
   destruct sec; cbn [parser_of bm_parsers p_general p_editor p_metadata p_difficulty p_events p_timing_points
                      p_colors p_hit_objects p_variables p_catch_the_beat p_mania];
     unfold liftp, liftt, on_ho, noop; cbn [obind bmd_ho bmd_version bmd_editor bmd_metadata bmd_colors fst].
   - (* General *)
     unfold hod_parse_general, tpd_parse_general. cbn [hod_tp tpd_general hod_difficulty hod_events hod_core tpd_core].
-    pose proof (parse_general_pre gen l Hl P4) as Hg. destruct (parse_general gen l) as [g r]. cbn [fst] in Hg.
-    cbn [obind fst bmd_inv]. unfold bmd_pre.
-    cbn [bmd_version bmd_editor bmd_metadata bmd_colors bmd_ho hod_tp hod_difficulty hod_events tpd_general].
-    solve_ands.
+    pose proof (parse_general_pre gen l Hl Qg) as Hg. destruct (parse_general gen l) as [g r]. cbn [fst] in Hg.
+    cbn [obind fst bmd_inv]. apply Fin; try assumption.
+    apply tps_general_refresh; [exact Qt|]. unfold tpg_of. cbn [tpg_bank]. exact (general_pre_bank g Hg).
   - (* Editor *)
     unfold bmd_parse_editor. cbn [bmd_editor bmd_version bmd_metadata bmd_colors bmd_ho].
-    pose proof (parse_editor_ok ed l P3) as He. destruct (parse_editor ed l) as [e r]. cbn [fst] in He.
-    cbn [fst bmd_inv]. unfold bmd_pre.
-    cbn [bmd_version bmd_editor bmd_metadata bmd_colors bmd_ho hod_tp hod_difficulty hod_events tpd_general].
-    solve_ands.
+    pose proof (parse_editor_ok ed l Qed') as He. destruct (parse_editor ed l) as [e r]. cbn [fst] in He.
+    cbn [fst bmd_inv]. apply Fin; assumption.
   - (* Metadata *)
     unfold bmd_parse_metadata. cbn [bmd_editor bmd_version bmd_metadata bmd_colors bmd_ho].
-    pose proof (parse_metadata_ok md l Hl P2) as Hm. destruct (parse_metadata md l) as [m r]. cbn [fst] in Hm.
-    cbn [fst bmd_inv]. unfold bmd_pre.
-    cbn [bmd_version bmd_editor bmd_metadata bmd_colors bmd_ho hod_tp hod_difficulty hod_events tpd_general].
-    solve_ands.
+    pose proof (parse_metadata_ok md l Hl Qm) as Hm. destruct (parse_metadata md l) as [m r]. cbn [fst] in Hm.
+    cbn [fst bmd_inv]. apply Fin; assumption.
   - (* Difficulty *)
     unfold hod_parse_difficulty. cbn [hod_tp tpd_general hod_difficulty hod_events hod_core].
-    pose proof (parse_difficulty_ok df l P1) as Hd. destruct (parse_difficulty df l) as [d r]. cbn [fst] in Hd.
-    cbn [obind fst bmd_inv]. unfold bmd_pre.
-    cbn [bmd_version bmd_editor bmd_metadata bmd_colors bmd_ho hod_tp hod_difficulty hod_events tpd_general].
-    solve_ands.
+    pose proof (parse_difficulty_ok df l Qd) as Hd. destruct (parse_difficulty df l) as [d r]. cbn [fst] in Hd.
+    cbn [obind fst bmd_inv]. apply Fin; assumption.
   - (* Events *)
     unfold hod_parse_events. cbn [hod_tp tpd_general hod_difficulty hod_events hod_core].
-    pose proof (parse_events_pre ev l Hl P0) as He. destruct (parse_events ev l) as [e r]. cbn [fst] in He.
-    cbn [obind fst bmd_inv]. unfold bmd_pre.
-    cbn [bmd_version bmd_editor bmd_metadata bmd_colors bmd_ho hod_tp hod_difficulty hod_events tpd_general].
-    solve_ands.
+    pose proof (parse_events_pre ev l Hl Qe) as He. destruct (parse_events ev l) as [e r]. cbn [fst] in He.
+    cbn [obind fst bmd_inv]. apply Fin; assumption.
   - (* TimingPoints *)
     unfold hod_parse_timing_points, tpd_parse_timing_points.
     cbn [hod_tp tpd_general tpd_core hod_difficulty hod_events hod_core].
-    destruct (parse_timing_points tcore l) as [[c r]|w|]; cbn [obind fst bmd_inv]; try exact I.
-    unfold bmd_pre.
-    cbn [bmd_version bmd_editor bmd_metadata bmd_colors bmd_ho hod_tp hod_difficulty hod_events tpd_general].
-    solve_ands.
+    destruct (parse_timing_points tcore l) as [[c r]|w|] eqn:Et; cbn [obind fst bmd_inv]; try exact I.
+    apply Fin; try assumption. exact (parse_timing_points_banks _ _ _ _ Et Qt).
   - (* Colours *)
     unfold bmd_parse_colors. cbn [bmd_editor bmd_version bmd_metadata bmd_colors bmd_ho].
-    pose proof (parse_colors_ok co l Hl P) as Hc. destruct (parse_colors co l) as [c r]. cbn [fst] in Hc.
-    cbn [fst bmd_inv]. unfold bmd_pre.
-    cbn [bmd_version bmd_editor bmd_metadata bmd_colors bmd_ho hod_tp hod_difficulty hod_events tpd_general].
-    solve_ands.
+    pose proof (parse_colors_ok co l Hl Qc) as Hc. destruct (parse_colors co l) as [c r]. cbn [fst] in Hc.
+    cbn [fst bmd_inv]. apply Fin; assumption.
   - (* HitObjects *)
     unfold hod_parse_hit_objects. cbn [hod_tp tpd_general hod_difficulty hod_events hod_core].
     destruct (parse_hit_objects core l) as [[c r]|w|]; cbn [obind fst bmd_inv]; try exact I.
-    unfold bmd_pre.
-    cbn [bmd_version bmd_editor bmd_metadata bmd_colors bmd_ho hod_tp hod_difficulty hod_events tpd_general].
-    solve_ands.
-  - cbn [bmd_inv]. unfold bmd_pre. cbn [bmd_version bmd_editor bmd_metadata bmd_colors bmd_ho hod_tp hod_difficulty hod_events tpd_general]. solve_ands.
-  - cbn [bmd_inv]. unfold bmd_pre. cbn [bmd_version bmd_editor bmd_metadata bmd_colors bmd_ho hod_tp hod_difficulty hod_events tpd_general]. solve_ands.
-  - cbn [bmd_inv]. unfold bmd_pre. cbn [bmd_version bmd_editor bmd_metadata bmd_colors bmd_ho hod_tp hod_difficulty hod_events tpd_general]. solve_ands.
+    apply Fin; assumption.
+  - cbn [bmd_inv]. apply Fin; assumption.
+  - cbn [bmd_inv]. apply Fin; assumption.
+  - cbn [bmd_inv]. apply Fin; assumption.
 Qed.
 
 Lemma section_loop_inv {S} (ps : parsers S) (P : S -> Prop) (Q : str -> Prop) :
@@ -812,10 +974,14 @@ Proof.
   assert (Hfin : forall os, bmd_inv os -> obind os (bmd_finish dist) = Done m -> simple_pre m = true).
   { intros os Hos Hf. destruct os as [b|w|]; cbn [obind] in Hf; try discriminate.
     cbn [bmd_inv] in Hos. unfold bmd_finish, hod_finish, tpd_finish in Hf.
-    destruct (tp_finish (tpd_core (hod_tp (bmd_ho b)))) as [c|w|]; cbn [obind] in Hf; try discriminate.
+    destruct (tp_finish (tpd_core (hod_tp (bmd_ho b)))) as [c|w|] eqn:Etp; cbn [obind] in Hf; try discriminate.
     cbn [tpv_general tpv_control_points] in Hf.
     destruct (finish_hit_objects dist c _ _ _ _) as [objs|w|]; cbn [obind] in Hf; try discriminate.
-    inversion Hf; subst m. exact Hos. }
+    inversion Hf; subst m. unfold bmd_pre in Hos. apply andb_true_iff in Hos. destruct Hos as [Hos Ht].
+    unfold simple_pre. cbn [bmv_version bmv_editor bmv_metadata bmv_colors bmv_ho hov_general hov_difficulty
+                            hov_events hov_control_points]. rewrite Hos. cbn [andb].
+    unfold tps_ok in Ht. apply andb_true_iff in Ht. destruct Ht as [Ht T3]. apply andb_true_iff in Ht.
+    unfold tp_finish in Etp. exact (flush_cp_banks _ _ Etp T3 (proj2 Ht)). }
   destruct (parse_first_section (vr_use_curr_line vr) (vr_curr_line vr) (vr_rest vr)) as [[sec rest]|] eqn:Ef.
   - assert (Hrest : Forall no_lf_line rest); [|
       exact (Hfin _ (section_loop_inv bm_parsers bmd_inv no_lf_line bm_step rest sec
@@ -828,23 +994,69 @@ Proof.
   - exact (Hfin (Done (bmd_create (odflt latest_format_version (vr_version vr)))) (defaults_pre _ Hv) H).
 Qed.
 
+Lemma general_pre_ok g : general_pre g = true -> has_ss (g_audio_file g) = false -> general_ok g = true.
+Proof.
+  unfold general_pre, general_ok, file_pre, file_ok. intros H Ha.
+  repeat (apply andb_true_iff in H; let X := fresh "X" in destruct H as [H X]; rewrite X).
+  rewrite H, Ha. reflexivity.
+Qed.
+
+Lemma events_pre_ok e : events_pre e = true -> has_ss (ev_background_file e) = false -> events_ok e = true.
+Proof.
+  unfold events_pre, events_ok, bg_pre, bg_ok. intros H Hb.
+  repeat (apply andb_true_iff in H; let X := fresh "X" in destruct H as [H X]; rewrite X).
+  rewrite H, Hb. reflexivity.
+Qed.
+
 Lemma simple_pre_ok m : simple_pre m = true -> d23_class m = false -> simple_ok m = true.
 Proof.
   unfold simple_pre, d23_class, simple_ok. intros H Hd. apply orb_false_iff in Hd. destruct Hd as [Ha Hb].
-  split_ands H.
-  assert (G : general_ok (hov_general (bmv_ho m)) = true).
-  { unfold general_pre in P4. unfold general_ok. split_ands P4. solve_ands.
-    unfold file_pre in P4. unfold file_ok. apply andb_true_iff in P4. destruct P4 as [X Y]. rewrite X, Y, Ha. reflexivity. }
-  assert (E : events_ok (hov_events (bmv_ho m)) = true).
-  { unfold events_pre in P0. unfold events_ok. apply andb_true_iff in P0. destruct P0 as [X Y]. rewrite Y, andb_true_r.
-    unfold bg_pre in X. unfold bg_ok.
-    apply andb_true_iff in X. destruct X as [X X5]. apply andb_true_iff in X. destruct X as [X X4].
-    apply andb_true_iff in X. destruct X as [X X3]. apply andb_true_iff in X. destruct X as [X1 X2].
-    rewrite X1, Hb, X2, X3, X4, X5. reflexivity. }
-  solve_ands.
+  apply andb_true_iff in H. destruct H as [H Qs]. apply andb_true_iff in H. destruct H as [H Qc].
+  apply andb_true_iff in H. destruct H as [H Qe]. apply andb_true_iff in H. destruct H as [H Qd].
+  apply andb_true_iff in H. destruct H as [H Qm]. apply andb_true_iff in H. destruct H as [H Qed'].
+  apply andb_true_iff in H. destruct H as [Qv Qg].
+  rewrite Qv, (general_pre_ok _ Qg Ha), Qed', Qm, Qd, (events_pre_ok _ Qe Hb), Qc, Qs. reflexivity.
 Qed.
 
 (* decode_image_inv *)
 Theorem decode_image_inv dist lines m :
   Forall no_lf_line lines -> decode_beatmap dist lines = Done m -> d23_class m = false -> simple_ok m = true.
 Proof. intros Hl H Hd. exact (simple_pre_ok m (decode_image_pre dist lines m Hl H) Hd). Qed.
+
+Lemma first_bank_enum c : sample_banks_ok c = true -> enum4_ok (first_sample_bank c) = true.
+Proof.
+  unfold sample_banks_ok, first_sample_bank. destruct (cp_sample c) as [|p r]; [reflexivity|].
+  cbn [forallb]. apply andb_prop_l.
+Qed.
+
+Lemma simple_ok_parts m : simple_ok m = true ->
+  i32_ok (bmv_version m) = true /\ general_ok (hov_general (bmv_ho m)) = true /\
+  editor_ok (bmv_editor m) = true /\ metadata_ok (bmv_metadata m) = true /\
+  difficulty_ok (hov_difficulty (bmv_ho m)) = true /\ events_ok (hov_events (bmv_ho m)) = true /\
+  colors_ok (bmv_colors m) = true /\ enum4_ok (first_sample_bank (hov_control_points (bmv_ho m))) = true.
+Proof.
+  unfold simple_ok. intros H.
+  apply andb_true_iff in H. destruct H as [H Qs]. apply andb_true_iff in H. destruct H as [H Qc].
+  apply andb_true_iff in H. destruct H as [H Qe]. apply andb_true_iff in H. destruct H as [H Qd].
+  apply andb_true_iff in H. destruct H as [H Qm]. apply andb_true_iff in H. destruct H as [H Qed'].
+  apply andb_true_iff in H. destruct H as [Qv Qg].
+  repeat split; try assumption. exact (first_bank_enum _ Qs).
+Qed.
+
+(* D23: the decoder's `\` -> `/` normalisation can leave "//" in a file name, and such a
+   name is cut as a comment when the encoded record is read back *)
+Definition d23_text : str :=
+  lit "osu file format v14" ++ [10] ++ lit "[General]" ++ [10] ++ lit "AudioFilename: a\\b.mp3" ++ [10].
+
+Lemma d23_witness :
+  let g := decode_general (lines_of_text d23_text) in
+  general_pre g = true /\ has_ss (g_audio_file g) = true /\
+  forall f64 f32 fi st,
+    g_audio_file (fst (parse_general st (render f64 f32 fi (kv_line (gkey GAudioFilename) (TStr (g_audio_file g))))))
+    <> g_audio_file g.
+Proof.
+  cbv zeta. split; [vm_compute; reflexivity|]. split; [vm_compute; reflexivity|].
+  intros f64 f32 fi st.
+  replace (g_audio_file (decode_general (lines_of_text d23_text))) with (lit "a//b.mp3") by (vm_compute; reflexivity).
+  vm_compute. discriminate.
+Qed.
